@@ -25,7 +25,10 @@ META["C16"] = {
 A_FILES = {"a.f90": ["module kinds", "type tol_t", "real :: abs_tol", "end type tol_t", "end module kinds",
                      # declared with capitals, referenced in lower case from B (names are case-insensitive)
                      "module geom", "type Shape", "integer :: n", "end type Shape", "end module geom",
-                     "module shared", "integer :: s", "end module shared"]}
+                     "module shared", "integer :: s", "end module shared",
+                     # a facade that re-exports another module's type under a new name: B sees it only under that name
+                     "module base_m", "type base_t", "integer :: b", "end type base_t", "end module base_m",
+                     "module facade", "use base_m, only: root_t => base_t", "public", "end module facade"]}
 PSET = dict(proc_internals=True, display=["public", "private", "protected"])
 
 
@@ -47,7 +50,8 @@ LOCAL_SHARED = [("type shared", True), ("type Shared", True), ("type unshared", 
 
 def _b_files(mk, uk, ls):
     return {"b.f90": [mk, "type tol_t", "real :: rel_tol", "end type tol_t", ls, "integer :: q", "end type", "end module",
-                      "module app", uk, "use geom", "type(tol_t) :: v", "type(shape) :: w", "end module app"]}
+                      "module app", uk, "use geom", "use facade, only: root_t", "type(tol_t) :: v", "type(shape) :: w", "type(root_t) :: z",
+                      "end module app"]}
 
 
 def _classify(ent):
@@ -62,18 +66,22 @@ def _observe(p):
     for u in app.uses:
         nm = getattr(u, "name", u)
         is_geom = choice.apply(lambda n: str(n).lower() == "geom", nm)
+        is_facade = choice.apply(lambda n: str(n).lower() == "facade", nm)
+        if is_facade is True:
+            continue
         used["geom" if is_geom is True else "kinds"] = _classify(u)
     vs = list(app.variables)
     found = p.find("shared")
     return {"use kinds": used["kinds"], "use geom": used["geom"],
             "type(tol_t)": choice.apply(_classify, vs[0].proto[0]) if vs and vs[0].proto else "unresolved",
             "type(shape)": choice.apply(_classify, vs[1].proto[0]) if len(vs) > 1 and vs[1].proto else "unresolved",
+            "type(root_t)": choice.apply(_classify, vs[2].proto[0]) if len(vs) > 2 and vs[2].proto else "unresolved",
             "find(shared)": "none" if found is None else choice.apply(_classify, found)}
 
 
 def rule(local_kinds, local_shared):
     return {"use kinds": "local" if local_kinds else "external", "use geom": "external",
-            "type(tol_t)": "local" if local_kinds else "external", "type(shape)": "external",
+            "type(tol_t)": "local" if local_kinds else "external", "type(shape)": "external", "type(root_t)": "external",
             "find(shared)": "local" if local_shared else "external"}
 
 
@@ -116,7 +124,7 @@ def local_first(ctx):
             E.reachable("correlated")
             want = choice.apply(rule, mk[1], ls[1])
             h.want = want
-            for k in ("use kinds", "use geom", "type(tol_t)", "type(shape)", "find(shared)"):
+            for k in ("use kinds", "use geom", "type(tol_t)", "type(shape)", "type(root_t)", "find(shared)"):
                 E.require(choice.apply(lambda g, w_, k=k: g == w_[k], got[k], want), f"{k}: wrong side (local/external) chosen")
 
         E = sym.Engine(ctx, max_paths=20000, incremental=True)
